@@ -254,6 +254,10 @@ func (tnc *TNC) runControlLoop() error {
 			case cmdDisconnected:
 				tnc.state = Disconnected
 				tnc.eof()
+			case cmdConnected:
+				// Mark the link as connected before the next frame is read. The dialer/listener is notified
+				// asynchronously (below), so data arriving right after CONNECTED would otherwise be discarded.
+				tnc.connected = true
 			case cmdBuffer:
 				tnc.data.updateBuffer(msg.value.(int))
 			case cmdNewState:
